@@ -29,6 +29,20 @@ func (s *stubQueryable) QueryProperty(env envs.Environment, key string, pt conta
 	return s.vals[key]
 }
 
+// values by key, those of fields apart where a field has the key of an attribute
+type collisionStub struct {
+	other, field map[string][]any
+}
+
+func (s *collisionStub) QueryProperty(env envs.Environment, key string, pt contactql.PropertyType) []any {
+	if pt == contactql.PropertyTypeField {
+		if v, ok := s.field[key]; ok {
+			return v
+		}
+	}
+	return s.other[key]
+}
+
 // values by property type and key
 type typedStub struct {
 	vals map[string][]any
@@ -103,7 +117,10 @@ func runC15(c *Ctx) {
 		fields = append(fields, static.NewField(assets.FieldUUID(fmt.Sprintf("u%d", i)), fmt.Sprintf("f%d", i), fmt.Sprintf("F%d", i), assets.FieldTypeText))
 	}
 	fields = append(fields, static.NewField("n", "age", "Age", assets.FieldTypeNumber), static.NewField("d", "dob", "DOB", assets.FieldTypeDatetime),
-		static.NewField("t", "nick", "Nick", assets.FieldTypeText))
+		static.NewField("t", "nick", "Nick", assets.FieldTypeText),
+		// fields whose keys are also names of attributes, of another type than the attribute
+		static.NewField("c1", "id", "Id", assets.FieldTypeNumber), static.NewField("c2", "tickets", "Tickets", assets.FieldTypeText), static.NewField("c3", "name", "Name", assets.FieldTypeNumber),
+		static.NewField("c4", "language", "Language", assets.FieldTypeDatetime), static.NewField("c5", "created_on", "Created On", assets.FieldTypeText), static.NewField("c6", "urn", "Urn", assets.FieldTypeNumber))
 	resolver := contactql.NewMockResolver(fields, nil, nil)
 	env := envs.NewBuilder().Build()
 
@@ -278,6 +295,24 @@ func runC15(c *Ctx) {
 			}
 			res[op.name] = got
 			c.Model("qdate", fmt.Sprintf("qdate %d %s %d %d", obj.UnixNano(), op.name, s.UnixNano(), e.UnixNano()), fmt.Sprint(got), qvalue)
+			// the query parsed once under another environment (as group queries are: parsed with the assets' environment, evaluated
+			// in the session's) is evaluated by the calendar day of the environment it is evaluated in
+			var q2 *contactql.ContactQuery
+			var perr2 error
+			var got2 bool
+			text2 := "dob " + op.sym + " " + qvalue
+			if !c.Guard("M3-date", "panic:query", map[string]any{"text": text2}, func() {
+				q2, perr2 = contactql.ParseQuery(env, text2, resolver)
+				if perr2 == nil {
+					got2 = contactql.EvaluateQuery(envz, q2, q)
+				}
+			}) && perr2 == nil {
+				c.Count("check:M3-parse-env")
+				if got2 != got {
+					c.Fail("monitor", "M3-date", "parse-environment-leaks", "a date query parsed under one environment and evaluated in another does not evaluate as the same text parsed in the evaluating environment",
+						map[string]any{"text": text2, "object": obj.String(), "evaluated_in": loc.String(), "parsed_in": "UTC", "result": got2, "same_text_parsed_in_evaluating_environment": got})
+				}
+			}
 		}
 		if bad {
 			c.Fail("monitor", "M3-date", "valid-query-rejected", "a date comparison was rejected or panicked", map[string]any{"obj": obj.String(), "qv": qvalue, "zone": loc.String()})
@@ -386,6 +421,9 @@ func c15Totality(c *Ctx, resolver contactql.Resolver) {
 		}
 		return p
 	}
+	// fields named like attributes: the value is of the field's type under the field, of the attribute's under the attribute
+	textFields, numFields, dateFields := []string{"fields.tickets", "fields.created_on"}, []string{"fields.id", "fields.name", "fields.urn"}, []string{"fields.language"}
+	typedField := map[string][]any{}
 	for _, p := range textProps {
 		typed[key(p)] = []any{"Bob x", "+12065551212"}
 	}
@@ -395,10 +433,22 @@ func c15Totality(c *Ctx, resolver contactql.Resolver) {
 	for _, p := range dateProps {
 		typed[key(p)] = []any{now}
 	}
-	full := &stubQueryable{vals: typed}
+	for _, p := range textFields {
+		typedField[key(p)] = []any{"Bob x", "17"}
+	}
+	for _, p := range numFields {
+		typedField[key(p)] = []any{decimal.RequireFromString("8801")}
+	}
+	for _, p := range dateFields {
+		typedField[key(p)] = []any{now}
+	}
+	full := &collisionStub{other: typed, field: typedField}
 	empty := &stubQueryable{vals: map[string][]any{}}
+	textProps = append(textProps, textFields...)
+	numProps = append(numProps, numFields...)
+	dateProps = append(dateProps, dateFields...)
 	opsAll := []string{"=", "!=", "~", ">", ">=", "<", "<=", "has", "is"}
-	values := []string{`""`, `"bob"`, `bo`, `10`, `10.5`, `"2024-03-05"`, `2024-03-05T10:00:00Z`, `active`, `eng`, `Testers`, `Registration`, `"+1206"`, `x`, `"a b c"`, `-1`}
+	values := []string{`""`, `"bob"`, `bo`, `10`, `10.5`, `8801`, `17`, `"2024-03-05"`, `2024-03-05T10:00:00Z`, `active`, `eng`, `Testers`, `Registration`, `"+1206"`, `x`, `"a b c"`, `-1`}
 	var props []string
 	props = append(props, textProps...)
 	props = append(props, numProps...)
